@@ -6,7 +6,7 @@ props = [json.loads(l) for l in open('/verif/properties.jsonl')]
 claimed = {
  'C01': dict(tech='contract-based deductive verification: sender contracts over ghost transport and output streams (wire bytes, open-message flag), writer interface contracts, VCs from go/ssa, z3/cvc5',
              text='Proved for all inputs: each packet handed to the transport has header length 8 + len(body) in big-endian at bytes 2..3, the channel message type and id, the end-of-message flag exactly when its body is shorter than the body size in force, and its bytes are appended to the wire with the earlier bytes untouched; a successful flush leaves no message open, i.e. the last packet written carries the end-of-message flag for every total length including exact multiples of the packet body size; every package, format and data writer only appends to the output stream it is given. Proof level for these per-function statements.',
-             note='Not mechanised: equality of the concatenated bodies on the wire with the packages\' encodings across several flush calls, and the packet-queue invariant at the deferred discard in sendPackets (unclaimed). Assumes the io.Writer contract, one sender per channel, a stable packet size while a message is queued, structurally valid client-built packages. A genuine defect (no end-of-message packet for messages that are exact multiples of the body size) was repaired, see known_findings.txt.',
+             note='Also proved: packets leave in stream order without gaps or repeats (the ghost transmit position equals the position of the first queued byte after every entry point; a successful flush has sent the whole queued stream and empties the queue). Unclaimed: the explicit assumption that the packet size does not change while packets are queued (pre[sendPackets/size-tie]) and one content clause of the queue invariant at the deferred discard. Assumes the io.Writer contract, one sender per channel, structurally valid client-built packages. A genuine defect (no end-of-message packet for messages that are exact multiples of the body size) was repaired, see known_findings.txt.',
              ref='3 C01'),
  'C02': dict(tech='contract-based deductive verification: packet reader contracts over a ghost transport byte stream (any Read sizes), loop invariants with cuts, VCs from go/ssa, z3/cvc5',
              text='Proved for every partition of the transport byte stream into Read results: PacketHeader.ReadFrom consumes exactly 8 bytes, decodes them as the big-endian header and fails only if the transport failed; Packet.ReadFrom consumes exactly Header.Length bytes and its body equals the following Length-8 stream bytes in order; WritePacket/tryParsePackage keep the receive queue position valid across failed parse attempts. Together with the queue view (C15) and the parser clause (C07) this makes each delivered package a function of the byte stream only. Proof level for these per-function statements.',
@@ -41,11 +41,11 @@ claimed = {
              note='The other half (what is sent instead decrypts under the server key with fresh randomness; no password in error texts) depends on crypto/rsa, crypto/rand and fmt and is not mechanised; it is not claimed.',
              ref='3 C09'),
  'C04': dict(cat='other', tech='contract-based deductive verification of decoder safety and stream discipline (VCs from go/ssa, z3/cvc5); bounded exhaustive execution (labelled bounded) for the value round trips, which go through encoding/binary, math/big and time',
-             text='Proved for all inputs: the decoders never index or slice outside the byte string for any length the format admits, field readers report a dry stream as ErrNotEnoughBytes, field writers only append. The value-level statement (decode(encode(v)) == v for every data type, exactly or to the tick, NULL as zero length, also inside parameter packages) is decided only on a stated finite domain by executing the real codec against an independent reference; that part is bounded, not proved.',
+             text='Proved for all inputs: the decoders never index or slice outside the byte string for any length the format admits, field readers report a dry stream as ErrNotEnoughBytes, field writers only append; for MONEY the encoder and decoder contracts plus two arithmetic lemmas prove decode(encode(x)) == x for every int64 count; NULL encodes to zero length. The value-level statement (decode(encode(v)) == v for every data type, exactly or to the tick, NULL as zero length, also inside parameter packages) is decided only on a stated finite domain by executing the real codec against an independent reference; that part is bounded, not proved.',
              note='Bounded domain: see evidence coverage.bounded (all 8/16-bit integers, boundary and seeded 32/64-bit patterns, float bit patterns, money, decimals of every precision, every (third) day of years 1..9999, sampled ticks, strings over all planes). BLOB is excluded by the property.',
              ref='3 C04'),
  'C05': dict(cat='other', tech='contract-based deductive verification of decoder safety (VCs from go/ssa, z3/cvc5); bounded exhaustive comparison with an independently written reference codec (labelled bounded)',
-             text='Proved for all inputs: decoder safety. The layout statements (little-endian integers and floats, money high word first, numeric sign plus big-endian magnitude, day / tick / minute / microsecond counts from their epochs, UTF-16LE, calendar helpers equal to the proleptic Gregorian calendar and inverse to each other) are decided on a stated finite domain by executing the real functions against a reference codec written from the property text; for the calendar helpers the domain is the whole of years 1..9999 in the thorough tier. Bounded, not proved.',
+             text='Proved for all inputs: decoder safety and the MONEY layout (high word then low word, little-endian bytes) in both directions. The remaining layout statements (little-endian integers and floats, money high word first, numeric sign plus big-endian magnitude, day / tick / minute / microsecond counts from their epochs, UTF-16LE, calendar helpers equal to the proleptic Gregorian calendar and inverse to each other) are decided on a stated finite domain by executing the real functions against a reference codec written from the property text; for the calendar helpers the domain is the whole of years 1..9999 in the thorough tier. Bounded, not proved.',
              note='The reference codec is trusted. encoding/binary, math/big and time cannot be brought under contract by the generator, hence no unbounded claim for the layouts.',
              ref='3 C05'),
  'C06': dict(tech='contract-based deductive verification: length-field postconditions of the package writers over the ghost output stream, login record layout contract (VCs from go/ssa, z3/cvc5); bounded execution (labelled bounded) for read-back equality',
